@@ -2,7 +2,7 @@
    Print Assumptions.  hwf = every reference stored in a heap cell points to an allocated cell of the right kind;
    swf = the stream record points to an indexer and a thermal condition; both are invariants of every reachable
    state (copy_lemma, mut_local, link_lemma, unlink_lemma, flow_proxy_lemma re-establish them). *)
-From V Require Import Common.NumFacts C13.Model C13.Proofs C13.Hist C13.CopyLike C13.Reduce C13.ProofsDeep.
+From V Require Import Common.NumFacts C13.Model C13.ModelViews C13.Proofs C13.Hist C13.CopyLike C13.Reduce C13.ProofsDeep C13.ProofsViews.
 Local Open Scope nat_scope.
 
 (* a copy has the same flows, phase(s), T and P; the original is unchanged; nothing is shared *)
@@ -410,3 +410,152 @@ Proof.
   split; [reflexivity|]. vm_compute. exists 3. eexists; eexists. split; [reflexivity|]. split; [reflexivity|].
   eexists; eexists; eexists; reflexivity.
 Qed.
+
+(* ---------- per-phase views ms[phase] (ModelViews.v) ---------- *)
+(* MultiStream.__getitem__ when the dict _streams has no view under that key (the record built is the one of
+   getitem_new below): the view is an ordinary single-phase stream object whose cells are a NEW indexer, the row cell of
+   the phase, the LockedPhase cell and the thermal condition of the MultiStream.  It shares with the MultiStream EXACTLY
+   the row of the phase and the thermal condition (nothing else: not the indexer, not the other rows), it reads the
+   flows of that row, the phase of its key and T, P of the MultiStream, and the MultiStream is unchanged *)
+Theorem C13_phase_view_shares_row_T_P : forall h l s k phs d p i h' l' m,
+  hwf h -> swf h s -> nth_error h (imol s) = Some (CIdxM k phs d) -> pidx phs p = Some i ->
+  i < length (rdrows h d) -> lk_ok h l -> get_phase h l (imol s) p = Ok (h', l', m) ->
+  let v := mkstream m (tc s) 0%Q [] IdNone (thermo s) in
+  hwf h' /\ swf h' v /\ swf h' s /\ lk_ok h' l' /\
+  (forall r, shared h' v s r <-> r = nth i (rdrows h d) 0 \/ r = tc s) /\
+  obs h' s = obs h s /\ footprint h' s = footprint h s /\
+  obs h' v = (false, [p], [rdvec h (nth i (rdrows h d) 0)], fst (rdtc h (tc s)), snd (rdtc h (tc s))).
+Proof. exact view_shares. Qed.
+Print Assumptions C13_phase_view_shares_row_T_P.
+
+(* the dict: a missing key creates that record and stores it; a present key returns the stored object, state unchanged *)
+Theorem C13_phase_view_created_once : forall vs i p s,
+  nth_error (ss (base vs)) i = Some s ->
+  (forall h' l' m, sub_find i p (subs vs) = None -> get_phase (hp (base vs)) (lk vs) (imol s) p = Ok (h', l', m) ->
+     getitem vs i p = (mkv (with_heap (base vs) h') (subs vs ++ [(i, p, mkstream m (tc s) 0%Q [] IdNone (thermo s))]) l',
+                       Ok (mkstream m (tc s) 0%Q [] IdNone (thermo s)))) /\
+  (forall v, sub_find i p (subs vs) = Some v -> getitem vs i p = (vs, Ok v)).
+Proof. intros vs i p s A. split; [intros h' l' m B C; apply getitem_new; auto|intros v B; eapply getitem_cached; eauto]. Qed.
+Print Assumptions C13_phase_view_created_once.
+
+(* a copy of a view: same flows, phase, T, P; built of new cells only (its phase box is an ordinary new Phase, not the
+   locked one), so it shares nothing with the view nor with the MultiStream, and under EVERY interleaved history of
+   mutations of the copy and of the view / of the MultiStream the other side never changes *)
+Theorem C13_phase_view_copy_independent : forall pk h s v h2 c, hwf h -> swf h s -> swf h v -> copy h v = Ok (h2, c) ->
+  obs h2 c = obs h v /\ obs h2 v = obs h v /\ obs h2 s = obs h s /\
+  disjoint (footprint h2 c) (footprint h2 v) /\ disjoint (footprint h2 c) (footprint h2 s) /\
+  (forall r, In r (footprint h2 c) -> length h <= r) /\
+  (forall hist, indep_trace pk h2 v c hist) /\ (forall hist, indep_trace pk h2 s c hist).
+Proof.
+  intros pk h s v h2 c W S V C.
+  destruct (view_copy h s v h2 c W S V C) as (A & B & D & W2 & SC & SV & SS & DV & DS & G).
+  repeat (split; auto); intros hist; apply indep_lemma; auto; apply disjoint_sym; auto.
+Qed.
+Print Assumptions C13_phase_view_copy_independent.
+
+(* the full statement over histories: in every reachable state every cached view wraps the row of its phase and the
+   thermal condition of its MultiStream *)
+Definition C13_phase_views_attached_statement : Prop :=
+  forall pk mw ops, attached (fst (vrun pk mw vinit ops)).
+
+(* ... is refuted by the code as it is: link_with and unlink rebind the data container and the thermal condition of the
+   MultiStream and leave _streams alone.  Witness: a view taken while linked still wraps the partner's row and thermal
+   condition after unlink() (so a write through a['l'] lands in b and is not seen by a) *)
+Definition vwit_ops : list vop :=
+  [VBase (ONewM (IdName 1) 0 [2; 3] [(2, [1%Q; 0%Q; 2%Q]); (3, [0%Q; 4%Q; 0%Q])] (300%Q) (101325%Q) 0%Q []);
+   VBase (ONewM (IdName 2) 0 [2; 3] [(3, [0%Q; 8%Q; 0%Q])] (350%Q) (101325%Q) 0%Q []);
+   VBase (OLink 0 1 true true true); VGet 0 3; VBase (OUnlink 0)].
+Definition vwit : vstate := fst (vrun PK MWS vinit vwit_ops).
+Theorem C13_phase_views_attached_refuted : ~ C13_phase_views_attached_statement.
+Proof.
+  intros H.
+  destruct (H PK MWS vwit_ops 0 3 (nth 0 (map snd (subs vwit)) dflt) (nth 0 (ss (base vwit)) dflt))
+    as (k & phs & d & j & k' & pb & _ & _ & _ & E).
+  - vm_compute. left. reflexivity.
+  - vm_compute. reflexivity.
+  - vm_compute in E. discriminate.
+Qed.
+Print Assumptions C13_phase_views_attached_refuted.
+
+(* the same witness, observed: the write through the stale view a['l'] changes b and not a *)
+Example C13_ex_stale_view_writes_partner :
+  let '(vs, es) := vrun PK MWS vwit [VSetFlow 0 3 0 (9%Q)] in
+  es = [None] /\
+  o_rows (observe (hp (base vs)) (nth 0 (ss (base vs)) dflt) []) = [[0%Q; 0%Q; 0%Q]; [0%Q; 8%Q; 0%Q]] /\
+  o_rows (observe (hp (base vs)) (nth 1 (ss (base vs)) dflt) []) = [[0%Q; 0%Q; 0%Q]; [9%Q; 8%Q; 0%Q]].
+Proof. vm_compute. repeat split; reflexivity. Qed.
+
+(* without link_with / unlink in between the view stays attached across phase changes and phase expansion (the phases
+   setter re-attaches it to the rows of the new indexer) *)
+Definition vex_ops : list vop :=
+  [VBase (ONewM (IdName 1) 0 [2; 3] [(2, [1%Q; 0%Q; 2%Q]); (3, [0%Q; 4%Q; 0%Q])] (300%Q) (101325%Q) 0%Q []);
+   VBase (ONewS (IdName 2) 0 4 [7%Q; 0%Q; 0%Q] (310%Q) (101325%Q) 0%Q []);
+   VGet 0 3; VGet 0 2; VBase (OCopyLike 0 1); VGet 0 4; VBase (OSetPhases 0 [3; 4]); VSetFlow 0 3 1 (5%Q); VSetT 0 4 (333%Q)].
+Definition vex : vstate := fst (vrun PK MWS vinit vex_ops).
+Definition attachedb (vs : vstate) : bool :=
+  forallb (fun e => let '(i, p, v) := e in
+    match nth_error (ss (base vs)) i with
+    | None => true
+    | Some s =>
+      match nth_error (hp (base vs)) (imol s), nth_error (hp (base vs)) (imol v) with
+      | Some (CIdxM _ phs d), Some (CIdxC _ _ dv) =>
+        match pidx phs p with Some j => Nat.eqb dv (nth j (rdrows (hp (base vs)) d) 0) && Nat.eqb (tc v) (tc s) | None => false end
+      | _, _ => false
+      end
+    end) (subs vs).
+Example C13_ex_phase_views :
+  hwf (hp (base vex)) /\ lk_ok (hp (base vex)) (lk vex) /\ attachedb vex = true /\ map fst (subs vex) = [(0, 3); (0, 4)] /\
+  o_rows (observe (hp (base vex)) (nth 0 (ss (base vex)) dflt) []) = [[0%Q; 5%Q; 0%Q]; [7%Q; 0%Q; 0%Q]] /\
+  o_T (observe (hp (base vex)) (nth 0 (ss (base vex)) dflt) []) = 333%Q /\
+  (exists h2 c, copy (hp (base vex)) (nth 0 (map snd (subs vex)) dflt) = Ok (h2, c)).
+Proof.
+  split; [apply hwfb_ok; vm_compute; reflexivity|].
+  split; [intros p r; vm_compute; intros E; repeat (destruct p as [|p]; try discriminate E); inversion E; reflexivity|].
+  split; [vm_compute; reflexivity|]. split; [vm_compute; reflexivity|]. split; [vm_compute; reflexivity|].
+  split; [vm_compute; reflexivity|]. eexists; eexists; vm_compute; reflexivity.
+Qed.
+
+(* ---------- the view dict (_data_cache) when MultiStreams take part ---------- *)
+(* the exact statement of C13_view_bound_over_histories for a MaterialIndexer: a cached mass view wraps the current rows
+   and phases of every indexer holding its dict, in every reachable state *)
+Definition C13_view_bound_multistream_statement : Prop :=
+  forall pk mw ops st r c v k phs d, st = fst (run pk mw init ops) ->
+    lookup r (cmap st) = Some c -> nth c (caches st) None = Some v -> nth_error (hp st) r = Some (CIdxM k phs d) ->
+    v = mkview (rdrows (hp st) d) None phs.
+
+(* admissibility condition: no two distinct MaterialIndexer objects hold the same SparseArray (no flow proxy of, and no
+   flow link between, MultiStreams whose phases are expanded later) *)
+Definition arrays_private (h : heap) : Prop :=
+  forall r1 r2 k1 p1 k2 p2 d,
+    nth_error h r1 = Some (CIdxM k1 p1 d) -> nth_error h r2 = Some (CIdxM k2 p2 d) -> r1 = r2.
+
+(* the condition is necessary: with a flow proxy of a MultiStream (second indexer over the same SparseArray, own dict), a
+   mass view created through the proxy, and copy_like of a solid stream onto the original (_expand_phases re-shapes the
+   shared array and clears only the original's dict), the proxy's cached view wraps two rows while its array has three *)
+Definition mwit_ops : list op :=
+  [ONewM (IdName 1) 0 [2; 3] [(2, [1%Q; 0%Q; 2%Q]); (3, [0%Q; 4%Q; 0%Q])] (300%Q) (101325%Q) 0%Q [];
+   ONewS (IdName 2) 0 4 [7%Q; 0%Q; 0%Q] (310%Q) (101325%Q) 0%Q [];
+   OFlowProxy 0; OReadMass 2; OCopyLike 0 1].
+Theorem C13_view_bound_multistream_refuted : ~ C13_view_bound_multistream_statement.
+Proof.
+  intros H.
+  assert (E : mkview [1; 2] None [2; 3] = mkview (rdrows (hp (fst (run PK MWS init mwit_ops))) 3) None [2; 3]).
+  { apply (H PK MWS mwit_ops _ 9 0 (mkview [1; 2] None [2; 3]) 0 [2; 3] 3 eq_refl); vm_compute; reflexivity. }
+  vm_compute in E. discriminate E.
+Qed.
+Print Assumptions C13_view_bound_multistream_refuted.
+
+(* ... and the witness violates exactly that condition in the state before the expanding operation *)
+Theorem C13_view_bound_condition_necessary :
+  ~ arrays_private (hp (fst (run PK MWS init (firstn 4 mwit_ops)))) /\
+  arrays_private (hp (fst (run PK MWS init (firstn 2 mwit_ops)))).
+Proof.
+  split.
+  - intros H. specialize (H 4 9 0 [2; 3] 0 [2; 3] 3). vm_compute in H. discriminate (H eq_refl eq_refl).
+  - intros r1 r2 k1 p1 k2 p2 d H1 H2.
+    assert (A : forall r k p d0, nth_error (hp (fst (run PK MWS init (firstn 2 mwit_ops)))) r = Some (CIdxM k p d0) -> r = 4).
+    { intros r k p d0. vm_compute. intros E.
+      do 9 (destruct r as [|r]; [simpl in E; try discriminate E; try reflexivity|]). simpl in E. destruct r; discriminate E. }
+    rewrite (A _ _ _ _ H1), (A _ _ _ _ H2). reflexivity.
+Qed.
+Print Assumptions C13_view_bound_condition_necessary.
